@@ -1,8 +1,18 @@
 """C05 — allocation conservation."""
-from props import histprop
+from props import histprop, undel
+import vlib
 PID = "C05"
-MIX = [("full", {}), ("extfull", {}), ("file", {}), ("extbound", {}), ("names", {}), ("dirc", {}), ("names", {"dostype": 4, "latin": True}), ("dircfull", {}), ("pagecross", {}), ("bigrm", {}), ("dircspill", {})]
+MIX = [("full", {}), ("extfull", {}), ("file", {}), ("extbound", {}), ("names", {}), ("dirc", {}), ("names", {"dostype": 4, "latin": True}), ("dircfull", {}), ("pagecross", {}), ("bigrm", {}), ("dircspill", {}), ("dircgrow", {})]
 RULE = ('every quiescent point of seeded histories over files of every size class: allocated set = reachable + reserved (no leak), reported free count = model count (exact on non-DIRCACHE flavours), refill after delete')
 def run(res):
     histprop.run(res, PID, MIX, {"C05"}, RULE, nquick=60, nthorough=1500)
+    # undelete (adf_salv.c, not modelled): decided on the real code by the probe of props/undel.py
+    if not res.violations:
+        exe = vlib.build_harness("asan")
+        found = undel.probe(res, exe, 12 if res.tier == "quick" else 200)
+        res.cov["undelete_histories"] = 12 if res.tier == "quick" else 200
+        mine = [(o, m) for o, m in found if any(t in m for t in ('free-block count', 'leak'))]
+        if mine:
+            o, m = mine[0]
+            res.violation(f"C05: {m}", dict(kind="history", ops=o, complaint=m), True)
 replay = histprop.replay
